@@ -22,6 +22,7 @@ def ch_terms(data, labels, K, n, centre):
 class C17(Check):
     pid = 'C17'
     validate = True
+    fork_logging = True       # DEBUG logging on/off is a symbolic input of every path
     anchors = [('src/fast_ticc/cluster_metrics.py', 'calinski_harabasz_index')]
     obligations = ['ch_matches_definition']
     obligation_text = {
